@@ -91,7 +91,7 @@ func c08Oracle(ec *epCase) *Failure {
 					return c08Known(ec, &Failure{Sig: "C08/exists-after-suppressed-error/" + tag, Expected: "NULL (or true if an item was found before the failure in lax mode); verbose: " + p.v.String() + "; silent Query: " + ec.silent.q.String(), Observed: p.s.String()})
 				}
 			case "match", "existsormatch":
-				if p.name == "existsormatch" && !ec.parsed.IsPredicate() {
+				if p.name == "existsormatch" && !(ec.p.E.K.isPredicate() && len(ec.p.E.Steps) == 0) {
 					continue
 				}
 				ok := p.s.Class == "null"
